@@ -30,7 +30,7 @@ def _events(args):
             code, absent = len(w.names[v]) + 1, 1.0
         if absent < 0.12:
             # a level that never occurs: the column is all zero
-            code, lvl = len(w.names[v]) + 1, "zzz"
+            code, lvl = len(w.names[v]) + 1, rng.choice(["zzz", "zzz", ""])   # also the empty string (quoted: y[''])
             if rng.random() < 0.5 and isinstance(w.df[v].dtype, pd.CategoricalDtype) and not w.df[v].dtype.ordered:
                 w.df[v] = w.df[v].cat.add_categories(["zzz"])   # ... or is a declared but unobserved category
         elif absent < 0.3 and sum(1 for c in w.cols[v]["v"] if c != code) >= 1:
